@@ -4,6 +4,7 @@ import (
 	"sync"
 
 	"github.com/plgd-dev/go-coap/v3/message/pool"
+	"github.com/plgd-dev/go-coap/v3/pkg/verifhook"
 	"go.uber.org/atomic"
 )
 
@@ -61,9 +62,11 @@ func (r *ReceivedMessageReader[C]) loop(loopDone chan struct{}, readingMessages 
 			return
 		// process received message until the queue is empty
 		case req := <-r.queue:
+			verifhook.Point("reader.afterDequeue")
 			// This signalizes that the loop is not reading messages.
 			readingMessages.Store(false)
 			r.cc.ProcessReceivedMessage(req)
+			verifhook.Point("reader.afterProcess")
 			// This signalizes that the loop is reading messages. We call mutex because we want to ensure that TryToReplaceLoop has ended and
 			// loopDone is closed if it was replaced.
 			r.private.mutex.Lock()
@@ -81,6 +84,7 @@ func (r *ReceivedMessageReader[C]) loop(loopDone chan struct{}, readingMessages 
 // the function returns immediately. If the loop is not reading messages, the current loop is closed,
 // and new loopDone and readingMessages channels and variables are created.
 func (r *ReceivedMessageReader[C]) TryToReplaceLoop() {
+	verifhook.Point("reader.tryToReplaceLoop")
 	r.private.mutex.Lock()
 	if r.private.readingMessages.Load() {
 		r.private.mutex.Unlock()
